@@ -159,6 +159,17 @@ class FloatLiteral(FilterExpressionLiteral[float]):
 
     __slots__ = ()
 
+    def __str__(self) -> str:
+        if self.value in (float("inf"), float("-inf")):
+            # A literal too big for a float, like 1e400. There is no JSONPath
+            # spelling of infinity, so write a number that reads back as one.
+            return "1e400" if self.value > 0 else "-1e400"
+        mantissa, exp, exponent = repr(self.value).lower().partition("e")
+        if exponent.startswith("+") and "." not in mantissa:
+            # "1e+16" would read back as an integer literal.
+            mantissa += ".0"
+        return mantissa + exp + exponent
+
 
 class NullLiteral(FilterExpressionLiteral[None]):
     """A null literal."""
